@@ -198,7 +198,7 @@ def sweep(ctx, quick):
                 "bundled": ["--bam", b["bam"], "--reference", b["fasta"], "--genedb", b["gtf"], "--read_group", "file:%s:0:1" % b["groups"]]}
         common = ["--complete_genedb", "--data_type", "nanopore", "-p", "OUT", "--count_exons", "--sqanti_output", "--check_canonical", "--counts_format", "both"]
         if quick:
-            configs = [(1, 0, 0, 0), (1, 0, 0, 0), (2, 1, 0, 1), (5, 2, 1, 0), (16, 3, 0, 0), (16, 0, 1, 1), (2, 2, 1, 0), (5, 1, 0, 0), (1, 3, 1, 1), (16, 1, 1, 0), (1, 4, 0, 0), (5, 5, 0, 1)]
+            configs = [(1, 0, 0, 0), (1, 0, 0, 0)] + [(t, s, (ti + s) % 2, (s // 2 + ti) % 2) for ti, t in enumerate((1, 2, 5, 16)) for s in (0, 1, 2, 3)]
         else:
             configs = [(1, 0, 0, 0)] + [(t, s, hm, kt) for t in (1, 2, 5, 16) for s in (0, 1, 2, 3) for hm in (0, 1) for kt in (0, 1)] + [(3, 7, 0, 0), (16, 8, 1, 1)]
         jobs = []
@@ -256,7 +256,7 @@ def sweep(ctx, quick):
                  "records, three loci where three genes share every exon) with --read_group, --count_exons, --sqanti_output, --check_canonical, --counts_format both; configurations "
                  "(threads, PYTHONHASHSEED, --high_memory, --keep_tmp) = %s, the first one twice (repetition); every file of <out>/OUT/ compared byte for byte (after decompression, "
                  "without the '# Command line:' line) with the first run; two more runs of the generated data start with pre-seeded class-level state (props/c10_seed.py: foreign isoform ids in detected_known_isoforms, the assignment / feature id counters advanced) and must give the same files; %d runs, %d file comparisons, %d multi-gene exon rows in the baselines"
-                 % ("12 covering all values pairwise-ish" if quick else "the full 4 x 4 x 2 x 2 grid + 2", len(jobs), n_cmp, n_multi))
+                 % ("the baseline twice + all 16 (threads, seed) pairs over {1,2,5,16} x {0,1,2,3} with --high_memory / --keep_tmp alternating" if quick else "the full 4 x 4 x 2 x 2 grid + 2", len(jobs), n_cmp, n_multi))
     finally:
         shutil.rmtree(root, ignore_errors=True)
 
